@@ -68,6 +68,10 @@ def available(sim, t, o):
         return on and a.operating_state.name == "RUNNING"
     if t in ("node-file-create", "node-folder-create"):
         return on
+    if t == "node-file-access":
+        # implemented rule: the access request sits on the file system itself and carries only the node-is-on rule; a missing or
+        # deleted file is answered "failure" by the handler (the doc table lists "file exists, not deleted")
+        return on
     if t.startswith("node-file-"):
         fo, fi = _file(node, o["folder_name"], o["file_name"])
         v = t[len("node-file-"):]
